@@ -2696,7 +2696,7 @@ class sptensor:
         if isinstance(other, ttb.tensor):
             # Find where their zeros interact
             otherzerosubs, _ = (other == 0).find()
-            zzerosubs = otherzerosubs[(self[otherzerosubs] == 0).transpose()[0], :]
+            zzerosubs = otherzerosubs[tt_setdiff_rows(otherzerosubs, self.subs), :]
 
             # Find where their nonzeros intersect
             znzsubs = np.empty(shape=(0, other.ndims), dtype=int)
